@@ -279,7 +279,30 @@ def gen_linsolve_classchange(rng, pattern=None):
     return case, pts
 
 
-def gen_classchange(rng, kind):
+def gen_linsolve_cg_magnitudes(rng):
+    """LinSolve with an ITERATIVE solver (CG, which starts from the previous solution): SPD systems whose loads change
+    magnitude by 2^20 and back between the responses; the result may depend on the history to solver tolerance only"""
+    pm = _pm()
+    from pymoto.solvers import CG
+    n = int(rng.integers(4, 9))
+    k = [None, 2][int(rng.integers(0, 2))]
+    shp = (n,) if k is None else (n, k)
+    C = rng.standard_normal((n, n))
+    A0 = C @ C.T / n + np.eye(n) * 2.0
+    pts = []
+    for e in [20, 0, -20, 0][int(rng.integers(0, 2)):][:3] + [0]:
+        A = A0 + np.diag(rng.uniform(0.0, 0.5, n))
+        pts.append([sps.csc_matrix(A), rng.standard_normal(shp) * 2.0 ** e])
+
+    def make():
+        sA = pm.Signal("A", zoo.vcopy(pts[0][0]))
+        sb = pm.Signal("b", zoo.vcopy(pts[0][1]))
+        return pm.LinSolve([sA, sb], solver=CG(tol=1e-11)), [sA, sb]
+
+    return zoo.Case(f"LinSolve.cg.magnitudes.n{n}.k{k}", make), pts
+
+
+def gen_classchange(rng, kind, pattern=None):
     """SystemOfEquations / StaticCondensation / EigenSolve / Inverse visiting matrices of different classes on ONE module
     (symmetric first, non-symmetric later, and back): flags or solvers remembered from an earlier matrix must not matter"""
     pm = _pm()
@@ -290,6 +313,8 @@ def gen_classchange(rng, kind):
     if rng.random() < 0.7:
         classes[0] = ["spd", "symindef"][int(rng.integers(0, 2))]
         classes[1] = "general"
+    if pattern is not None:
+        classes = [c if (c != "csym" or cplx_ok) else "general" for c in pattern]
     mats = []
     for c in classes:
         A = zoo._rand_matrix(rng, n, c, c == "csym")
@@ -456,9 +481,20 @@ def correspondence(ctx):
             ctx.oracle_fail(r[1], {"case": case.name})
         else:
             ctx.distinct.add(("lib", case.name))
+    for _ in range(3 if ctx.quick else 20):
+        case, pts = gen_linsolve_cg_magnitudes(nprng)
+        r = call_impl(history_oracle, case, nprng, int(nprng.integers(8, 16)), 1e-6, pts)
+        ctx.evaluations += 1
+        ctx.branch("lib.linsolve-cg-magnitudes")
+        if r[0] == "err":
+            ctx.oracle_fail(f"{case.name}: history raised {r[2][:300]}", {"case": case.name})
+        elif r[1]:
+            ctx.oracle_fail(r[1], {"case": case.name})
+        else:
+            ctx.distinct.add(("lib", case.name))
     for kind in ("soe", "staticcond", "inverse", "eigensolve"):
-        for _ in range(5 if ctx.quick else 40):
-            case, pts = gen_classchange(nprng, kind)
+        for t in range(6 if ctx.quick else 40):
+            case, pts = gen_classchange(nprng, kind, LINSOLVE_PATTERNS[(t + ctx.seed) % 8] if (t + ctx.seed) % 8 < len(LINSOLVE_PATTERNS) else None)
             r = call_impl(history_oracle, case, nprng, int(nprng.integers(6, 16)), 1e-6, pts)
             ctx.evaluations += 1
             ctx.branch("lib." + kind + "-classchange")
